@@ -78,6 +78,48 @@ def work_kind(spec, rec, kind):
                           {"srepr": sympy.srepr(e)[:1500], "rendering": rendering[:400], "detail": detail[:300]})
         else:
             rec.inconc("generated: " + detail.split(":")[0][:50])
+    # (a') source-form style: the same generator run with evaluation disabled (the shape in which law authors write their
+    # equations and in which the documentation prints them), plus results of SymPy's own restructuring functions
+    for i in range(spec["trees"] // 4):
+        rec.checkpoint()
+        try:
+            with harness.Watchdog(20):
+                if i % 5 == 4:
+                    base = gen(r.randint(2, 3))
+                    e = r.choice([sympy.factor_terms, sympy.together, lambda x: sympy.factor_terms(-x)])(base)
+                else:
+                    with sympy.evaluate(False):
+                        e = gen(r.randint(2, min(4, spec["depth"])))
+                if e.is_Number or e.has(sympy.zoo, sympy.nan, sympy.oo):
+                    continue
+                # reciprocals of reciprocals (1 / (1 / sqrt(b)), x / (1 / (1/7))) do not occur in hand-written laws and are
+                # left out: the statement covers canonical trees and the catalogue, this workload only imitates the latter
+                if any(isinstance(n, sympy.Pow) and n.exp.is_number and n.exp.is_negative and
+                       (isinstance(n.base, sympy.Pow) and n.base.exp.is_number and n.base.exp.is_negative or (n.base.is_Rational and not n.base.is_Integer))
+                       for n in sympy.preorder_traversal(e)):
+                    rec.add("source_form_double_reciprocal_skipped")
+                    continue
+                # likewise unevaluated arithmetic between literals (x / 1, (-1) * (-1), 2 * 3) - nobody writes it in a law
+                if any((isinstance(n, sympy.Pow) and n.base == 1) or (isinstance(n, (sympy.Mul, sympy.Add)) and sum(1 for a in n.args if a.is_Number) >= 2)
+                       for n in sympy.preorder_traversal(e)):
+                    rec.add("source_form_literal_arithmetic_skipped")
+                    continue
+                verdict, detail, rendering = render_compare(e, r)
+        except TimeoutError:
+            rec.inconc("watchdog on a source-form tree")
+            continue
+        except Exception:  # pylint: disable=broad-except
+            rec.add("generator_exceptions")
+            continue
+        rec.case(("src", rendering), nontrivial=True)
+        if verdict == "ok":
+            rec.hit("source_form_style_decided")
+        elif verdict == "viol":
+            rec.hit("source_form_style_decided")
+            rec.violation(f"source-form-style:{classify(detail, rendering)}", f"{kind} rendering {rendering[:200]!r} of the unevaluated {sympy.srepr(e)[:200]}: {detail[:200]}",
+                          {"srepr": sympy.srepr(e)[:1500], "rendering": rendering[:400], "detail": detail[:300]})
+        else:
+            rec.inconc("source-form style: " + detail.split(":")[0][:50])
     # (b) the catalogue in documented source form
     for name in spec["modules"]:
         rec.checkpoint()
